@@ -151,7 +151,7 @@ def query_sym(p):
     env = SymEnv()
     api = env.mod("api")
     n, K, upper, sparse = p["n"], p["K"], p["upper"], p["sparse"]
-    b1, b2, v = sym_pixels(n, K, upper)
+    b1, b2, v = sym_pixels(n, K, upper, vlo=p.get("vlo", 1), vhi=p.get("vhi", 9))
     offs = csr_offsets(b1, n)
     h5 = MockGroup({"pixels": {"bin1_id": SArr(b1, "int64"), "bin2_id": SArr(b2, "int64"), "count": SArr(v, "int32")},
                     "indexes": {"bin1_offset": SArr(offs, "int64")}, "bins": {}})
@@ -209,6 +209,9 @@ def _qcases(tier):
         for upper in (True, False):
             for sparse in (False, True):
                 out.append(dict(n=n, K=K, upper=upper, sparse=sparse))
+    # signed values (differences, log-ratios): zero and negative entries are values like any other
+    out.append(dict(n=3, K=2, upper=True, sparse=False, vlo=-2, vhi=2))
+    out.append(dict(n=3, K=2, upper=True, sparse=True, vlo=-2, vhi=2))
     return out
 
 
@@ -348,3 +351,68 @@ CHECKS = [
           doc="_process_slice against Python's slice resolution; axis length symbolic, bounds unbounded",
           bounds=dict(quick="axis length <= 6, slice bounds unbounded integers or None", thorough="axis length <= 40")),
 ]
+
+
+# ---------------------------------------------------------------------------
+# the store given as file path, URI or open HDF5 handle; several collections of one file queried in one process
+# ---------------------------------------------------------------------------
+def store_forms_body(env, p):
+    """Two collections with the same bins and different pixel tables live in one file: /a (symbolic records) and /b/deep (fixed
+    records). Each is opened by URI (both leading-slash spellings) and by open handle, interleaved, and queried with one window in
+    dense, sparse and pixel form: every answer is the slice of *that* collection's matrix (nothing learnt from one collection may
+    be applied to the other)."""
+    from .model import concrete_bins
+    from .common import env_pixels, vals
+    env.reset()
+    n, K, upper = p["n"], p["K"], p["upper"]
+    bins = concrete_bins([n], "even")
+    path = scratch_file("c03s.cool")
+    tabs = {"/a": env_pixels(env, n, K, upper, prefix="a"), "/b/deep": ([0, 1], [1, 1], [5, 6])}
+    env.build_cooler(path, bins, *tabs["/a"][:2], {"count": tabs["/a"][2]}, upper, group="/a", mode="w")
+    env.build_cooler(path, bins, *tabs["/b/deep"][:2], {"count": tabs["/b/deep"][2]}, upper, group="/b/deep", mode="a")
+    i0, i1, j0, j1 = (env.int(k, 0, n) for k in ("i0", "i1", "j0", "j1"))
+    env.assume(and_(i0 <= i1, j0 <= j1))
+    if env.symbolic:
+        # the window is enumerated by solver forks (every window of the axis); the stored records stay symbolic
+        i0, i1, j0, j1 = (concretize(x) for x in (i0, i1, j0, j1))
+    cs = 10     # one read chunk: chunk-size independence is the subject of `query`/`pixel_output`; here every query would add its own free partition
+    f = env.h5.File(path, "r")
+    obs = []
+    order = [("/a", path + "::/a"), ("/b/deep", path + "::b/deep"), ("/a", f["a"]), ("/b/deep", f["/b/deep"])]
+    for grp, store in order:
+        b1, b2, v = tabs[grp]
+        clr = env.cooler.Cooler(store)
+        what = f"{grp} opened by {'handle' if not isinstance(store, str) else 'URI'}"
+        dense = clr.matrix(balance=False, chunksize=cs)[i0:i1, j0:j1]
+        nr, nc = dense.shape
+        env.check(and_(nr == i1 - i0, nc == j1 - j0), f"{what}: output shape differs from the window")
+        outs = [dense]
+        if p["sparse"]:
+            outs.append(clr.matrix(balance=False, sparse=True, chunksize=cs)[i0:i1, j0:j1].toarray())
+        conds = []
+        for a in range(nr):
+            for b in range(nc):
+                e = _expected_cell(b1, b2, v, i0 + a, j0 + b, upper) if env.symbolic else int(dense_ref(n, b1, b2, v, upper)[i0 + a, j0 + b])
+                conds.extend(o[a, b] == e for o in outs)
+        env.check(and_(*conds), f"{what}: range query differs from the slice of that collection's matrix")
+        px = clr.matrix(balance=False, as_pixels=True, chunksize=cs)[i0:i1, j0:j1]
+        sel = [q for q in range(len(b1)) if bool(and_(i0 <= b1[q], b1[q] < i1, j0 <= b2[q], b2[q] < j1))]
+        R, C, V = vals(px["bin1_id"]), vals(px["bin2_id"]), vals(px["count"])
+        if len(R) != len(sel):
+            env.fail(f"{what}: pixel output has {len(R)} rows, {len(sel)} stored records of that collection lie inside the window")
+        env.check(and_(*[and_(R[t] == b1[q], C[t] == b2[q], V[t] == v[q]) for t, q in enumerate(sel)]),
+                  f"{what}: pixel output is not that collection's stored records inside the window")
+        obs.append([R, V])
+    f.close()
+    return obs
+
+
+store_sym, store_real = both(store_forms_body)
+
+CHECKS.append(Check("store_forms", lambda tier: [dict(n=3, K=1, upper=True, sparse=False), dict(n=3, K=1, upper=False, sparse=True)] if tier == "quick" else
+                    [dict(n=3, K=K, upper=u, sparse=sp) for K in (1, 2) for u in (True, False) for sp in (False, True)],
+                    store_sym, store_real,
+                    doc="the store given as URI (both slash spellings) or open HDF5 handle; two collections with the same bins and different pixels in "
+                        "one file, queried interleaved in one process: dense, sparse and pixel output of each is the slice of its own matrix",
+                    bounds=dict(quick="n=3 bins, K=1 symbolic pixel in one collection, two fixed pixels in the other, every window, one read chunk", thorough="K<=2"),
+                    stubs=("E1", "E3 in-memory h5py model (every path replayed on real h5py)", "E4", "E5"), timeout=2400, split_depth=6))
